@@ -57,9 +57,11 @@ Print Assumptions C05_hinv_set_pointer.
 (* non-vacuity: the invariant holds for a fresh message (null root word, empty tables) *)
 Theorem C05_hinv_initial : hinv hinv_ex_msg [] [].
 Proof. exact hinv_initial. Qed.
+Print Assumptions C05_hinv_initial.
 
 (* ------------------------------------------------------------------ over op lists *)
 From CV Require Import Core.Reader Core.BuildOps Core.BuildInv Core.HeapOps Core.HeapCopy Core.HeapCopySrc Core.HeapSteps Core.HeapValid.
+From CV Require Core.BuildExamples.
 
 (* hinv implies the strict validity predicate (worklist terminates within its fuel; all regions
    collected are table regions, pairwise equal or disjoint) *)
@@ -125,7 +127,35 @@ Theorem C05_step_hinv : forall e st objs pads o st' out,
 Proof. exact bstep_hinv. Qed.
 Print Assumptions C05_step_hinv.
 
-(* C05 for the builder: all arena configurations with a root word, any source message (bytes
+(* THE HEADLINE.  For every arena configuration with a root word, any source message (bytes
+   0..255, read with the repaired tag check), every program accepted by sub_prog (every op of the
+   interpreter; the predicate only bounds arguments), data setters applied to handles of the
+   message under construction, and every state reached while the message has fewer than 2^32
+   segments: the TABLE INVARIANT holds - there are an object table and a pad table such that
+   (hinv) every pointer slot of every table object and the root word hold the null word, the
+   inline empty struct, a capability pointer or exactly the words of the placement switch for ONE
+   table object; objects, root word and pads lie inside their segments and are PAIRWISE DISJOINT
+   by table position (distinct objects occupy disjoint storage; the root word is nobody's
+   storage); composite lists carry their tag; and every pool handle is a view of the table.
+   [valid_message = VOk] (below) is a corollary and strictly weaker: valid_message is structural
+   (see C05_valid_message_is_structural). *)
+Theorem C05_heap_inv_tables : forall a cfgd cfgs ncaps fuel src ops m,
+  arena_spec_wf a -> root_cap_ok a -> create a (init_rlimit cfgd) = Ok m -> sub_prog ops = true ->
+  msg_ok src -> cfg_strict cfgs = true ->
+  let st0 := mkBSt (mkW m src (init_rlimit cfgs)) [] in
+  dst_run (mkEnv cfgd cfgs ncaps fuel) st0 ops ->
+  Forall seg_bound (bstates (mkEnv cfgd cfgs ncaps fuel) st0 ops) ->
+  Forall (fun st => exists objs pads, sinv st objs pads) (bstates (mkEnv cfgd cfgs ncaps fuel) st0 ops).
+Proof. exact heap_inv_sublang. Qed.
+Print Assumptions C05_heap_inv_tables.
+
+(* what valid_message does NOT check: equal regions of different kind, a region that is the root
+   word - this self-pointing root passes.  Excluded for builder outputs by C05_heap_inv_tables. *)
+Example C05_valid_message_is_structural : valid_message [[252; 255; 255; 255; 0; 0; 1; 0]] = VOk.
+Proof. exact BuildExamples.valid_message_is_structural. Qed.
+Print Assumptions C05_valid_message_is_structural.
+
+(* the corollary: all arena configurations with a root word, any source message (bytes
    0..255, read with the repaired tag check), all programs accepted by the executable predicate
    sub_prog (every op of the interpreter; the predicate only bounds arguments), data setters
    applied to handles of the message under construction (dst_run), all reachable states (fewer than 2^32 segments):
@@ -144,6 +174,7 @@ Theorem C05_sublang_example :
   sub_prog [BNewStruct 0 0 1; BNewStruct 1 8 0; BSetUint 1 0 8 258; BSetPtr 0 0 1; BSetRoot 0] = true /\
   arena_spec_wf (ArRaw [24; 16]) /\ root_cap_ok (ArRaw [24; 16]).
 Proof. exact sublang_example. Qed.
+Print Assumptions C05_sublang_example.
 
 (* non-vacuity of the extended sub-language: NewCompositeList, List.Struct member used as data
    and pointer container, PointerList.Set, typed setter on the composite list, SetRoot, handles
@@ -156,3 +187,4 @@ Theorem C05_sublang_example2 :
   Forall seg_bound (bstates ex2_env ex2_st0 ex2_ops) /\
   map (fun st => valid_message (bm_data (w_dst (st_w st)))) (bstates ex2_env ex2_st0 ex2_ops) = repeat VOk 37.
 Proof. exact sublang_example2. Qed.
+Print Assumptions C05_sublang_example2.
